@@ -169,7 +169,7 @@ func optNat(i int) string {
 // ------------------------------------------------------------------------------------------------
 // the proxy's sealed flow records as Callback.v's wire terms
 
-type stateParameter struct {
+type flowRecord struct {
 	SessionID   string `json:"session_id"`
 	RedirectURI string `json:"redirect_uri"`
 }
@@ -178,7 +178,7 @@ func (h *hist) wire(v string) string {
 	if v == "" {
 		return "(WJunk 0)"
 	}
-	sp := &stateParameter{}
+	sp := &flowRecord{}
 	if err := h.w.pCipher.Unmarshal(v, sp); err != nil {
 		h.nflow++
 		return fmt.Sprintf("(WJunk %d)", h.nflow)
@@ -613,11 +613,14 @@ type aReq struct {
 	CType              string
 	Hdrs               [][2]string
 	Ck                 aChoice
-	Csrf               string // CSRF cookie value ("" none)
-	IdpCode            string // callback: the IdP code presented
-	SigFrom            int    // step of the proxy redirect whose signature is presented unchanged (-1)
-	URI                string // the redirect_uri presented
-	SigOK              bool   // (redirect_uri, sig, ts) are those of a proxy redirect, unchanged, and the sig verifies
+	Csrf               string  // CSRF cookie value ("" none)
+	IdpCode            string  // callback: the IdP code presented
+	SigFrom            int     // step of the proxy redirect whose signature is presented unchanged (-1)
+	URI                string  // the redirect_uri presented
+	SigOK              bool    // (redirect_uri, sig, ts) are those of a proxy redirect, unchanged, and the sig verifies
+	Creds              bool    // the request presents the authenticator's client id AND secret
+	Parse              [][2]tv // url.Parse(x).String(): x -> result (second with Real == "\x00": Parse error)
+	Nested             [][4]tv // Parse(x).Query(): x -> redirect_uri, sig, ts
 	Route              int
 	Note               string
 }
@@ -799,8 +802,8 @@ func (h *hist) auth(rq aReq) aRes {
 			}
 		}
 	}
-	obs := fmt.Sprintf("(OA (mk_aobs %d %s %s %s %s %s %d %s %s %s))", rec.Code, locCoq, c.List(sessOps), c.List(csrfOps), callsCoq(idpCalls), jsonCoq,
-		rq.Route, presCoq, c.Str(rq.URI), revCoq)
+	obs := fmt.Sprintf("(OA (mk_aobs %d %s %s %s %s %s %d %s %s %s %s %s))", rec.Code, locCoq, c.List(sessOps), c.List(csrfOps), callsCoq(idpCalls), jsonCoq,
+		rq.Route, presCoq, c.Str(rq.URI), c.Bool(rq.Creds), c.Bool(rq.SigOK), revCoq)
 	// ---- the symbolic event
 	script := h.scriptCoq(prov, rtok, access, rq.IdpCode, res.nonce)
 	urlenc, cterr := false, false
@@ -808,8 +811,19 @@ func (h *hist) auth(rq aReq) aRes {
 		mt := strings.ToLower(strings.TrimSpace(strings.SplitN(rq.CType, ";", 2)[0]))
 		urlenc = mt == "application/x-www-form-urlencoded"
 	}
-	ev := fmt.Sprintf("(SAuth (mk_sauth %s %s %s %s %s %s %s %s %s %s [] [] []) %s)", c.Str(host), c.Str(path), c.Str(rq.Method), tmplOrNil(rq.Query),
-		c.Bool(urlenc), c.Bool(cterr), tmplOrNil(rq.Body), pairs(rq.Hdrs), c.List(sessCoq), c.List(csrfCoq), script)
+	var parseC, nestedC []string
+	for _, e := range rq.Parse {
+		r := "(Some " + tmplOrNil(e[1]) + ")"
+		if e[1].Real == "\x00" {
+			r = "None"
+		}
+		parseC = append(parseC, c.Pair(tmplOrNil(e[0]), r))
+	}
+	for _, e := range rq.Nested {
+		nestedC = append(nestedC, c.Pair(tmplOrNil(e[0]), "("+tmplOrNil(e[1])+","+tmplOrNil(e[2])+","+tmplOrNil(e[3])+")"))
+	}
+	ev := fmt.Sprintf("(SAuth (mk_sauth %s %s %s %s %s %s %s %s %s %s %s %s []) %s)", c.Str(host), c.Str(path), c.Str(rq.Method), tmplOrNil(rq.Query),
+		c.Bool(urlenc), c.Bool(cterr), tmplOrNil(rq.Body), pairs(rq.Hdrs), c.List(sessCoq), c.List(csrfCoq), c.List(parseC), c.List(nestedC), script)
 	h.steps = append(h.steps, fmt.Sprintf("(mk_step %s %s %s)", c.Z(now), ev, obs))
 	h.js = append(h.js, map[string]interface{}{"step": step, "kind": "auth", "now": now, "path": path, "method": rq.Method, "cookie": rq.Ck.kind,
 		"status": rec.Code, "location": short(res.loc), "sets": len(res.cookies), "cleared": res.cleared, "code": res.code != nil, "idp": idpCalls, "note": rq.Note})
